@@ -315,6 +315,22 @@ where
                             Ok(r) => r,
                             Err(p) => Err(format!("panic: {}", p)),
                         };
+                        // trouble of the harness's own making (no free port, cannot bind, cannot
+                        // open a pty) says nothing about the library: the case is skipped and
+                        // counted; too many of them make the run inconclusive, never a violation
+                        let r = match r {
+                            Err(m) if m.contains("INFRA:") => {
+                                if !failed.get() {
+                                    let mut s = stats.borrow_mut();
+                                    *s.labels.entry("infra:case_skipped".to_string()).or_insert(0) += 1;
+                                }
+                                if std::env::var("VERIF_DEBUG").is_ok() {
+                                    eprintln!("[runner] case skipped: {}", m);
+                                }
+                                return Ok(());
+                            }
+                            other => other,
+                        };
                         match r {
                             Ok(ok) => {
                                 if !failed.get() {
@@ -448,6 +464,14 @@ where
                 if k.starts_with("ABORT:") {
                     report.health_errors.push(format!("search {}: {}", self.name, k));
                 }
+            }
+            // cases skipped for trouble of the harness's own: a handful is tolerated
+            let skipped = *report.stats.labels.get("infra:case_skipped").unwrap_or(&0) as f64;
+            if skipped > 3.0 && skipped > 0.05 * (n + skipped) {
+                report.health_errors.push(format!(
+                    "search {}: {} cases skipped because the harness could not set them up (ports, ptys)",
+                    self.name, skipped
+                ));
             }
         }
         report.wall_s = started.elapsed().as_secs_f64();
@@ -624,7 +648,13 @@ pub fn run_property(ctx: &Ctx, prop: &'static Property) -> i32 {
     // 3. searches
     let mut reports = Vec::new();
     for s in &prop.searches {
-        let r = s.run(ctx, &open_names);
+        let mut r = s.run(ctx, &open_names);
+        // a failure that is trouble of the harness's own making (it says so: "INFRA:") is never
+        // a violation: the search is inconclusive
+        if r.failure.as_ref().map(|f| f.message.contains("INFRA:")).unwrap_or(false) {
+            let f = r.failure.take().unwrap();
+            r.health_errors.push(format!("search {}: {}", r.name, f.message));
+        }
         if let Some(f) = &r.failure {
             let path = write_replay(ctx, prop.id, &r.name, f);
             if f.hang {
